@@ -654,7 +654,9 @@ impl<'a> Engine<'a> {
                     Pressed(x) => {
                       if !is_modifier(*x) && at.contains(&a.m) && !post.active_mappings.iter().any(|m| m.to.contains(&a.m)) {
                         let f4 = fired.as_ref().map(|f| f.to.contains(x) && ends_in_modifier(f)).unwrap_or(false);
-                        let sig = if f4 { "C08.2:output-ending-in-modifier-not-treated-as-key-producing" } else { "C08.2:absorbed-modifier-down-at-key-press" };
+                        // F5 family: the pressed key is the (overwritten) trigger slot, so the absorbed modifiers are not lifted
+                        let f5 = pre.absorbing_trigger == Some(*k);
+                        let sig = if f4 { "C08.2:output-ending-in-modifier-not-treated-as-key-producing" } else if f5 { "C08.2:absorbing-trigger-slot-overwritten" } else { "C08.2:absorbed-modifier-down-at-key-press" };
                         report!(self.viol("C08", "2", sig,
                           format!("{} was absorbed (trigger {}) and is still held; the press of {} put {} on the output while {} is down there; events {}", key_name(a.m), key_name(a.t), key_name(*k), key_name(*x), key_name(a.m), evs_str(&events))));
                       }
@@ -673,6 +675,10 @@ impl<'a> Engine<'a> {
                     // F5: the single trigger slot is shared; re-pressing it un-hides a modifier absorbed for another trigger
                     let unhides_other = pre.absorbing_trigger == Some(*k) && fired.as_ref().map(|f| armed_now.iter().any(|b| b.m != a.m && b.t != *k && f.from.contains(&b.m))).unwrap_or(false);
                     let sig = if unhides_other { "C08.3:absorbing-trigger-slot-overwritten" } else { "C08.3:same-trigger-does-not-refire" };
+                    if std::env::var("TMVERIF_DEBUG").is_ok() {
+                      eprintln!("DEBUG c08.3 sig={} pre.trigger={:?} k={:?} armed_now={:?} hist_len={} in_before={:?} pre={:?}", sig, pre.absorbing_trigger, k,
+                        armed_now.iter().map(|b| format!("{:?}@{:?}/{}", b.m, b.t, b.premise3)).collect::<Vec<_>>(), self.st.hist.len(), in_before, pre);
+                    }
                     report!(self.viol("C08", "3", sig,
                       format!("{} absorbed {}; {} was released and pressed again before any other key with the same keys held, but {} fired", mapping_str(&a.mapping), key_name(a.m), key_name(a.t),
                         fired.as_ref().map(mapping_str).unwrap_or("nothing".to_string()))));
@@ -680,7 +686,8 @@ impl<'a> Engine<'a> {
                 }
               }
             }
-            for a in self.st.armed.iter_mut() { if a.t != *k { a.premise3 = false; } }
+            // clause (3) speaks about the first press of the trigger after its release: if another mapping fired there, the chain is over
+            for a in self.st.armed.iter_mut() { if a.t != *k || fired.as_ref() != Some(&a.mapping) { a.premise3 = false; } }
             // (4) counts again
             if self.st.armed.is_empty() && self.st.limbo.is_empty() {
               if !same_set(&in_before, &pre.input_pressed_keys) { out.count("c08_in_desync_when_nothing_armed"); }
